@@ -84,10 +84,15 @@ func validateSite() string {
 			pcSite = append(pcSite, pcEntry{pc, site})
 		}
 		if site != "" {
-			if mapSiteOnly != "" && !strings.Contains(site, mapSiteOnly) {
-				return ""
+			if mapSiteOnly == "" {
+				return site
 			}
-			return site
+			for _, f := range strings.Split(mapSiteOnly, "|") {
+				if strings.Contains(site, f) {
+					return site
+				}
+			}
+			return ""
 		}
 	}
 	return ""
